@@ -61,6 +61,9 @@ FileLoop:
 		}
 		name := f.GetName()
 		if idx, ok := fm.index[name]; !ok {
+			if f.GetInsertionPoint() != "" {
+				return fmt.Errorf("[%s] attended to patch '%s' at '%s' but no such file found", src, name, f.GetInsertionPoint())
+			}
 			fm.index[name] = len(fm.files)
 			fm.files = append(fm.files, f)
 		} else {
